@@ -85,6 +85,8 @@ _STATICS = [
     ("nonstatio", 2, (10, 4, 1, 3, 2), (8, 2, 2, 2, 2)),
     ("nonstatio", 2, (9, 1, 3, 4, 1), (9, 3, 1, 4, 1)),
     ("nonstatio", 2, (8, 3, 2, 3, 1), (8, 3, 2, 3, 1)),
+    ("nonstatio", 2, (14, 8, 1, 3, 2), (12, 2, 2, 4, 2)),      # nt_start = n_start + 3*sel_x
+    ("nonstatio", 2, (12, 2, 2, 4, 1), (16, 9, 1, 3, 2)),      # n_start = nt_start + 3.5*sel_t
     ("statio", 1, None, (11, 3, 2, 5, 2)),                     # 1-D space domain
     ("nonstatio", 1, (8, 2, 2, 4, 1), (10, 4, 3, 5, 2)),       # 1-D space domain
 ]
@@ -143,7 +145,7 @@ def gen_cases(rng, tier):
     scheds = [(0, 1), (0, 1), (1, 1), (0, 2), (1, 2)]
     if tier == "quick":
         statics = [_STATICS[0], _STATICS[1], _STATICS[4], _STATICS[6], _STATICS[7], _STATICS[9], _STATICS[10],
-                   _STATICS[11], _STATICS[12]]
+                   _STATICS[11], _STATICS[12], _STATICS[13], _STATICS[14]]
         per_static, n_solve = 6, 1
     else:
         statics = list(_STATICS) + [_random_static(rng, k) for k in ("ode", "statio", "nonstatio") for _ in range(6)]
@@ -173,7 +175,7 @@ def gen_cases(rng, tier):
     big = _base(rng, "ode", 0, (3, 2, 4, 5, 1), None, "trigger")
     big.update(start=0, every=1, ops=[["draw"], ["trigger", 0, "0"]], expect_error="type_error")
     cases.append(big)
-    solve_statics = [_STATICS[0], _STATICS[4], _STATICS[7], _STATICS[9], _STATICS[12]]
+    solve_statics = [_STATICS[0], _STATICS[4], _STATICS[7], _STATICS[9], _STATICS[14]]
     for kind, dim, T, X in solve_statics:
         base = _base(rng, kind, dim, T, X, "solve")
         cap = rarlib.cap_of(base)
